@@ -1,0 +1,53 @@
+//go:build verif && amd64 && go1.17 && !go1.27
+// +build verif,amd64,go1.17,!go1.27
+
+package verifx
+
+import (
+	"reflect"
+
+	"github.com/bytedance/sonic/internal/caching"
+	"github.com/bytedance/sonic/internal/decoder/jitdec"
+	"github.com/bytedance/sonic/internal/resolver"
+)
+
+// DecoderIL is the jitdec IL listing of a destination type.
+func DecoderIL(vt reflect.Type) (string, error) { return jitdec.VerifDisassemble(vt) }
+
+// FieldMap re-exports caching.FieldMap (struct field lookup table of the decoder).
+type FieldMap = caching.FieldMap
+
+func CreateFieldMap(n int) *FieldMap { return caching.CreateFieldMap(n) }
+
+// StrHash is the hash used by FieldMap.
+func StrHash(s string) uint64 { return caching.StrHash(s) }
+
+// ResolvedField is a flattened view of resolver.FieldMeta.
+type ResolvedField struct {
+	Name      string
+	Quoted    bool
+	OmitEmpty bool
+	Type      reflect.Type
+	Offsets   []uintptr // accumulated offsets, one per path element
+	Deref     []bool    // whether the path element dereferences an embedded pointer
+}
+
+// ResolveStruct re-exports resolver.ResolveStruct.
+func ResolveStruct(vt reflect.Type) []ResolvedField {
+	fv := resolver.ResolveStruct(vt)
+	out := make([]ResolvedField, 0, len(fv))
+	for _, f := range fv {
+		r := ResolvedField{
+			Name:      f.Name,
+			Quoted:    f.Opts&resolver.F_stringize != 0,
+			OmitEmpty: f.Opts&resolver.F_omitempty != 0,
+			Type:      f.Type,
+		}
+		for _, o := range f.Path {
+			r.Offsets = append(r.Offsets, o.Size)
+			r.Deref = append(r.Deref, o.Kind == resolver.F_deref)
+		}
+		out = append(out, r)
+	}
+	return out
+}
